@@ -43,6 +43,8 @@ def decMut : Sexp → Option Mut
 def decOp : Sexp → Option OpC
   | list (sym "input" :: ss) => (ss.mapM decStmt).map (fun x => OpC.op (Op.input x))
   | list [sym "build"] => some (.op .build)
+  -- an `input` call that raised ParsingException: no statement was accepted
+  | list [sym "rejected"] => some (.op (Op.input []))
   | list [sym "mut", int k, m] => (decMut m).map (fun μ => OpC.op (Op.mutate k.toNat μ))
   | list [sym "clone", int k, int j, str kind, int id] => some (.cloneInto k.toNat j.toNat kind id.toNat)
   | _ => none
